@@ -423,6 +423,8 @@ def getattr_value(eng, v, attr):
             if isinstance(m, Closure):
                 if getattr(m, 'is_property', False):
                     return eng.call_closure(m.bind(v), [], {})
+                if getattr(m, 'is_static', False):
+                    return m
                 return m.bind(v)
             if m is not None:
                 return m
@@ -1271,7 +1273,12 @@ def list_pop(eng, b, idx=-1):
     r = eng.fresh(ty, 'pop')
     i = z3.FreshInt('pi')
     eng.assume(ty.len(r) == n - 1)
-    eng.assume(z3.ForAll([i], z3.Implies(z3.And(0 <= i, i < n - 1), ty.at(r, i) == ty.at(e, z3.If(i >= p, i + 1, i)))))
+    if isinstance(idx, int) and idx == 0:
+        eng.assume(z3.ForAll([i], z3.Implies(z3.And(0 <= i, i < n - 1), ty.at(r, i) == ty.at(e, i + 1)), patterns=[ty.at(r, i)]))
+    else:
+        # two ite-free halves (ite terms make poor triggers)
+        eng.assume(z3.ForAll([i], z3.Implies(z3.And(0 <= i, i < p), ty.at(r, i) == ty.at(e, i)), patterns=[ty.at(r, i)]))
+        eng.assume(z3.ForAll([i], z3.Implies(z3.And(p <= i, i < n - 1), ty.at(r, i) == ty.at(e, i + 1)), patterns=[ty.at(r, i)]))
     b.e = r
     return v
 
@@ -1535,6 +1542,8 @@ def cstr_all_pred(name):
 
 def str_method(name):
     def m(eng, s, *args, **kw):
+        if name == 'format' and isinstance(s, str) and s in getattr(eng, 'format_hooks', {}):
+            return eng.format_hooks[s](eng, *args, **kw)      # a contract gives this template a meaning
         if isinstance(s, str) and all(isinstance(a, (str, int, tuple)) or a is None for a in args) \
                 and not any(_has_sym(a) for a in args):
             r = getattr(s, name)(*args, **kw)
@@ -1842,6 +1851,7 @@ def install(eng):
     M[('list', 'append')] = list_append
     M[('list', 'extend')] = list_extend
     M[('list', 'pop')] = list_pop
+    M[('list', 'popleft')] = lambda e, b: list_pop(e, b, 0)      # collections.deque
     M[('list', 'index')] = list_index
     M[('list', 'remove')] = list_remove
     M[('list', 'copy')] = list_copy
